@@ -49,7 +49,11 @@ func Triangulate(rects []Rect) []Tri {
 				// merge point on right chain
 				s := P{X: r0.BR.X, Y: r1.TL.Y}
 				ts = append(ts, Tri{nextid(), a, s, P{r1.BR.X, r1.TL.Y}})
-				ts = append(ts, Tri{nextid(), a, r1.TL, s})
+				if !hasMergePoint {
+					// with a merge point on the left chain too, the area left of s is already covered
+					// by the two triangles above: adding this one would triangulate it twice
+					ts = append(ts, Tri{nextid(), a, r1.TL, s})
+				}
 				hasMergePoint = true
 			}
 			if i == len(rects)-1 {
